@@ -31,7 +31,10 @@ PATS = ['a', 'b', '^a', 'a$', 'a|b', '.', '', 'x', 'a.c', '^a|b', 'c|^b',
         # flags, numbered and named groups with back-references
         '(?i)B', r'(b)\1', '(?P<g>a)(?P=g)', '(?s)a.b',
         # a '!' that belongs to the regex: '!!b' negates the regex '!b'
-        '!b', '!']
+        '!b', '!',
+        # exact names spelled as an escaped, anchored regex (what tools that
+        # re-run single tests generate)
+        r'^a\.c$', '^ab$']
 NAMES = ['a', 'b', 'ab', 'ba', 'abc', 'a.c', 'xa', 'c', 'A', 'a\nb', 'cb',
          'xb', 'bc', 'bb', 'aa', 'Bc', 'a!b', '!']
 
@@ -236,6 +239,11 @@ def run_pure(ln, first, second):
             w = spec_accept(lst, name)
             if g != w:
                 viol.append(('iff', 'accept=%s spec=%s' % (g, w), lst, name))
+        # the predicate is a function of (patterns, name): asking again (a
+        # second candidate with an equal name) gives the same answer
+        for name, g in zip(NAMES[::-1], got[::-1]):
+            if acc(name) != g:
+                viol.append(('answer_changes_when_asked_again', 'first answer %s' % g, lst, name))
         # algebraic consequences on the real function
         if ln <= 3:
             for perm in itertools.permutations(lst):
